@@ -129,6 +129,7 @@ def chk_case(inp, c):
     if est is None:
         est = c.call(gen.make_estimator, dreye, inp, w=(1.0 if inp["W"] is None else inp["W"]),
                      _where="ReceptorEstimator+register_system")
+    del c.events[:]          # only the events of the judged call
     arg = {"l2": "l2", "none": None, "min": "min", "max": "max", "var": "var"}.get(opt, val)
     kw = dict(solver=cp.CLARABEL, tol_gap_abs=1e-10, tol_gap_rel=1e-10, tol_feas=1e-10) if inp["tight"] else {}
     out = c.call(est.fit_underdetermined, B.copy(), underdetermined_opt=arg, l2_eps=eps,
